@@ -12,18 +12,19 @@ import (
 	"io"
 	"mime"
 	"reflect"
-	"strings"
 	"strconv"
+	"strings"
 	"testing"
 
 	"pgregory.net/rapid"
 
 	"github.com/flamego/flamego"
 	"github.com/flamego/flamego/verifharness/internal/evid"
+	"github.com/flamego/flamego/verifharness/internal/gen"
 	"github.com/flamego/flamego/verifharness/internal/rt"
 )
 
-const rule = "case = options (Charset, JSONIndent, XMLIndent; or none) x Renderer placed as application middleware, group handler or route handler x 1..3 later handlers of which one renders x a render call: JSON of a randomly nested value (maps, slices, strings with <>&, numbers, booleans, null) or of a tagged struct, XML of a struct with attributes, nested, optional and repeated elements, Binary of arbitrary bytes, PlainText of arbitrary text, with a status in 100..999, for GET / POST / HEAD; optionally the rendering handler first serves a nested request through the same application (which renders something else) before rendering its own response, optionally a middleware in front or the handler itself has already put some other Content-Type on the response. " +
+const rule = "case = options (Charset, JSONIndent, XMLIndent; or none) x Renderer placed as application middleware, group handler or route handler x 1..3 later handlers of which one renders x a render call: JSON of a randomly nested value (maps, slices, strings with <>&, numbers, booleans, null) or of a tagged struct, XML of a struct with attributes, nested, optional and repeated elements, Binary of arbitrary bytes, PlainText of arbitrary text (payloads now and then 0.5..70 KB), with a status in 100..999, for GET / POST / HEAD; optionally the rendering handler first serves a nested request through the same application (which renders something else) before rendering its own response, optionally a middleware in front or the handler itself has already put some other Content-Type on the response. " +
 	"Oracle: the spy writer got exactly the given status once and before the body; Content-Type is the documented media type with the configured (default utf-8) charset; Binary / PlainText bodies are verbatim; the JSON body is valid JSON laid out with the configured indentation and json.Unmarshal of it is DeepEqual to the value; the XML body decodes into an equal struct and is indented iff an indentation is configured; every handler after the middleware receives a Render. " +
 	"non-trivial = a non-200 status, a non-default option, a value nested >= 2 deep, a nested request, a Content-Type set before the render call, or a HEAD request; distinct by case text"
 
@@ -139,7 +140,9 @@ func checkCase(c Case) (out evid.Outcome) {
 	}
 	innerH := func(r flamego.Render) { r.PlainText(202, "inner-text") }
 	if c.PreCT == "first" {
-		f.Use(func(ctx flamego.Context) { ctx.ResponseWriter().Header().Set("Content-Type", "application/octet-stream") })
+		f.Use(func(ctx flamego.Context) {
+			ctx.ResponseWriter().Header().Set("Content-Type", "application/octet-stream")
+		})
 	}
 	switch c.At {
 	case "use":
@@ -377,7 +380,7 @@ func genJSON(t *rapid.T, d int) interface{} {
 		}
 		return s
 	case k < 6:
-		return text.Draw(t, "str")
+		return bigText(t, "str")
 	case k < 7:
 		return float64(rapid.IntRange(-1000000, 1000000).Draw(t, "num"))
 	case k < 8:
@@ -389,8 +392,17 @@ func genJSON(t *rapid.T, d int) interface{} {
 	}
 }
 
+// bigText is text, or now and then 0.5..70 KB of ASCII with markup characters.
+func bigText(t *rapid.T, label string) string {
+	s := text.Draw(t, label)
+	if b := gen.Big(t, "a<b&c d"); len(b) > 7 {
+		return b
+	}
+	return s
+}
+
 func genPerson(t *rapid.T) *XPerson {
-	p := &XPerson{ID: rapid.IntRange(-5, 99999).Draw(t, "id"), Name: text.Draw(t, "name"), Active: rapid.Bool().Draw(t, "active")}
+	p := &XPerson{ID: rapid.IntRange(-5, 99999).Draw(t, "id"), Name: bigText(t, "name"), Active: rapid.Bool().Draw(t, "active")}
 	for i, n := 0, rapid.IntRange(0, 3).Draw(t, "nemail"); i < n; i++ {
 		p.Emails = append(p.Emails, text.Draw(t, "email"))
 	}
@@ -434,10 +446,10 @@ func genCase(t *rapid.T) Case {
 	case "jsonstruct", "xml":
 		c.Person = genPerson(t)
 	case "binary":
-		c.Bytes = strconv.QuoteToASCII(string(rapid.SliceOfN(rapid.Byte(), 0, 40).Draw(t, "bytes")))
+		c.Bytes = strconv.QuoteToASCII(gen.Big(t, string(rapid.SliceOfN(rapid.Byte(), 0, 40).Draw(t, "bytes"))))
 	case "text":
 		if rapid.Bool().Draw(t, "fmt") {
-			c.Bytes = strconv.QuoteToASCII(rapid.StringMatching(`[a-z%sdvq<>&\n ]{0,16}`).Draw(t, "fmtext"))
+			c.Bytes = strconv.QuoteToASCII(gen.Big(t, rapid.StringMatching(`[a-z%sdvq<>&\n ]{0,16}`).Draw(t, "fmtext")))
 		} else {
 			c.Bytes = strconv.QuoteToASCII(string(rapid.SliceOfN(rapid.Byte(), 0, 24).Draw(t, "tbytes")))
 		}
